@@ -17,6 +17,17 @@
 (*                is no Request, and responses                             *)
 (*   responses    one key per distinct code ("default" when there is no    *)
 (*                response); several responses with one code are merged    *)
+(*   response     content: one media type per body format (json ->         *)
+(*                application/json, plainString -> text/plain, binary ->   *)
+(*                the range any/any); a single response of the notation      *)
+(*                empty has an empty content; merged responses carry the   *)
+(*                union of their media types and of their header names;    *)
+(*                merging a response of the notation empty is refused:     *)
+(*                the export as a whole returns an error (ExportFails)     *)
+(*   requestBody  media type of the request's format; any -> the range,    *)
+(*                empty -> no media type                                   *)
+(*   info         title and version ("" without INFO), description only    *)
+(*                when the document gives one                              *)
 (*   components   one schema per user type (the harness strips the '@')     *)
 (*                                                                         *)
 (* JSON-RPC interactions are not exported.  What lies inside a schema      *)
@@ -34,6 +45,17 @@ TagTitles(C, names, i) == IF i > Len(names) THEN <<>>
                           ELSE (IF IdxOf(C.tags, names[i]) = 0 THEN <<>> ELSE <<TagTitle(C, names[i])>>) \o TagTitles(C, names, i + 1)
 
 Codes(x) == {x.responses[r].code : r \in 1..Len(x.responses)}
+MT(fmt) == CASE fmt = "json" -> "application/json" [] fmt = "plainString" -> "text/plain" [] OTHER -> "*/*"
+RespsOf(x, code) == SelectSeq(x.responses, LAMBDA r : r.code = code)
+RespNotation(r) == r.body[1].schema.notation
+ContentOf(rs) == IF Len(rs) = 1 /\ RespNotation(rs[1]) = "empty" THEN {} ELSE {MT(rs[i].body[1].format) : i \in 1..Len(rs)}
+HeaderNames(rs) == UNION {IF rs[i].headers = <<>> THEN {} ELSE {ParamKeys(rs[i].headers[1].schema)[k] : k \in 1..Len(ParamKeys(rs[i].headers[1].schema))} : i \in 1..Len(rs)}
+Resp(x, code) == [code |-> code, content |-> ContentOf(RespsOf(x, code)), headers |-> HeaderNames(RespsOf(x, code))]
+ReqContent(x) == IF x.method \in {"GET", "DELETE"} \/ x.request = <<>> THEN {}
+                 ELSE LET b == x.request[1].body[1] IN
+                      CASE b.schema.notation = "any" -> {"*/*"} [] b.schema.notation = "empty" -> {} [] OTHER -> {MT(b.format)}
+\* newResponseAnyOf: "empty response body in same-code responses: not decided" -- the export returns an error
+MergeRefused(x) == \E c \in Codes(x) : Len(RespsOf(x, c)) > 1 /\ \E i \in 1..Len(RespsOf(x, c)) : RespNotation(RespsOf(x, c)[i]) = "empty"
 Operation(C, x) ==
   [method   |-> x.method,
    summary  |-> x.annotation,
@@ -44,7 +66,9 @@ Operation(C, x) ==
    headers  |-> IF x.request = <<>> \/ x.request[1].headers = <<>> THEN <<>> ELSE ParamKeys(x.request[1].headers[1].schema),
    body     |-> IF x.method \in {"GET", "DELETE"} \/ x.request = <<>> THEN "none"
                 ELSE IF x.request[1].body[1].schema.notation = "any" THEN "optional" ELSE "required",
-   codes    |-> IF x.responses = <<>> THEN {"default"} ELSE Codes(x)]
+   codes    |-> IF x.responses = <<>> THEN {"default"} ELSE Codes(x),
+   reqmt    |-> ReqContent(x),
+   resp     |-> IF MergeRefused(x) THEN {} ELSE {Resp(x, c) : c \in Codes(x)}]
 
 HttpIdx(C) == SelectSeq([i \in 1..Len(C.inters) |-> i], LAMBDA i : C.inters[i].proto = "http")
 PathsOf(C) == {C.inters[i].path : i \in {HttpIdx(C)[k] : k \in 1..Len(HttpIdx(C))}}
@@ -54,8 +78,12 @@ Item(C, p) ==
    params |-> C.inters[FirstOf(C, p)].pathVars,
    ops    |-> {Operation(C, C.inters[i]) : i \in {j \in 1..Len(C.inters) : C.inters[j].proto = "http" /\ C.inters[j].path = p}}]
 
+ExportFails(C) == \E i \in 1..Len(C.inters) : C.inters[i].proto = "http" /\ MergeRefused(C.inters[i])
 OAS(C) ==
   [openapi    |-> "3.0.3",
+   fails      |-> ExportFails(C),
+   info       |-> IF C.info = <<>> THEN [title |-> "", version |-> "", hasdesc |-> FALSE]
+                  ELSE [title |-> C.info[1].title, version |-> C.info[1].version, hasdesc |-> C.info[1].description # ""],
    servers    |-> [i \in 1..Len(C.servers) |-> C.servers[i].baseUrl],
    paths      |-> {Item(C, p) : p \in PathsOf(C)},
    components |-> {C.types[i].name : i \in 1..Len(C.types)}]
